@@ -254,6 +254,92 @@ def spell(rng, v, width, neg_ok=True):
         return '(%d)/1' % v if False else '%d/1' % v
     return str(v)
 
+def _atom(rng, v):
+    """A non-negative value as one token (decimal, hex, binary or a character)."""
+    k = rng.randrange(5)
+    if k == 0:
+        return '$%X' % v
+    if k == 1:
+        return '%' + bin(v)[2:]
+    if k == 2 and 32 <= v < 127 and v not in (94, 96):
+        c = chr(v)
+        return '"\\%s"' % c if c in '"\\' else '"%s"' % c
+    return str(v)
+
+def spellx(rng, v, paren_first=False):
+    """An arithmetic expression (+ - * / modulo, parentheses, character constants, inner blanks) whose value is v >= 0."""
+    k = rng.randrange(8)
+    if k == 0:
+        a = rng.randint(0, v)
+        e = '%s+%s' % (_atom(rng, a), _atom(rng, v - a))
+    elif k == 1:
+        a = rng.randint(1, 12)
+        e = '%s*(%s+%s)+%s' % (_atom(rng, a), _atom(rng, (v // a) // 2), _atom(rng, v // a - (v // a) // 2), _atom(rng, v % a))
+    elif k == 2:
+        # a modulus written with the digits 0/1 only reads as modulo (not as a binary number) right after a number or ')'
+        m = rng.choice([10, 11, 100, 101, 110, 111]) if rng.random() < 0.5 else rng.randint(2, 9) * 10 + rng.randint(2, 9)
+        q = rng.randint(0, 3)
+        w = v % m + q * m
+        lhs = '(%d+%d)' % (w // 2, w - w // 2) if rng.random() < 0.4 else '%d' % w
+        e = '%s%%%d' % (lhs, m) if v < m else '%d+%s%%%d' % (v - v % m, lhs, m)
+        if e.startswith('(') and not paren_first:
+            e = '0+' + e
+    elif k == 3:
+        d = rng.randint(1, 9)
+        e = '%s/%s' % (_atom(rng, v * d + rng.randint(0, d - 1)), _atom(rng, d))
+    elif k == 4:
+        a = rng.randint(0, 300)
+        e = '%s-(%s-%s)' % (_atom(rng, v + a), _atom(rng, a + 5), _atom(rng, 5)) if rng.random() < 0.5 else '%s-%s' % (_atom(rng, v + a), _atom(rng, a))
+    elif k == 5:
+        e = '%s+(%s)*%s' % (_atom(rng, v), _atom(rng, rng.randrange(256)), _atom(rng, 0))
+    elif k == 6 and paren_first:
+        a = rng.randint(1, 7)
+        e = '(%s+%s)*%s+%s' % (_atom(rng, 1), _atom(rng, a - 1), _atom(rng, v // a), _atom(rng, v % a))
+    else:
+        e = '+%s' % _atom(rng, v) if rng.random() < 0.3 else '%s+-%s' % (_atom(rng, v + 3), _atom(rng, 3))
+    if rng.random() < 0.25 and '"' not in e:
+        e = e.replace('+', ' + ').replace('*', ' * ' if rng.random() < 0.5 else '*')
+    return e
+
+def qstring(rng, data):
+    """Quote printable bytes as a string operand (escaping quote and backslash)."""
+    return '"%s"' % ''.join('\\' + chr(b) if chr(b) in '"\\' else chr(b) for b in data)
+
+def def_statement(rng):
+    """A DEFB/DEFM/DEFS/DEFW statement in the assembler's grammar and the bytes it denotes."""
+    d = rng.choice(['DEFB', 'DEFM', 'DEFW', 'DEFS'])
+    items, data = [], []
+    if d in ('DEFB', 'DEFM'):
+        for _ in range(rng.randint(1, 5)):
+            if rng.random() < 0.45:
+                s = [rng.choice([32, 33, 34, 44, 59, 92, 65, 97, 122, 126, 58, 36, 37, 40, 41, rng.randrange(32, 127)]) for _ in range(rng.randint(1, 6))]
+                s = [c for c in s if c not in (94, 96)] or [65]
+                items.append(qstring(rng, s))
+                data.extend(s)
+            else:
+                v = rng.choice([0, 1, 34, 92, 127, 128, 255, rng.randrange(256)])
+                r = rng.random()
+                items.append(spellx(rng, v, True) if r < 0.5 else spell(rng, v, 1))
+                data.append(v)
+    elif d == 'DEFW':
+        for _ in range(rng.randint(1, 4)):
+            v = rng.choice([0, 1, 255, 256, 0x7FFF, 0x8000, 0xFFFF, rng.randrange(65536)])
+            items.append(spellx(rng, v, True) if rng.random() < 0.5 else spell(rng, v, 2))
+            data.extend((v & 255, v >> 8))
+    else:
+        n = rng.choice([1, 2, 3, 255, 256, 257, rng.randint(1, 700)])
+        items.append(spellx(rng, n, True) if rng.random() < 0.5 else spell(rng, n, 2, False))
+        if rng.random() < 0.6:
+            v = rng.choice([0, 1, 255, rng.randrange(256)])
+            items.append(spellx(rng, v, True) if rng.random() < 0.4 else spell(rng, v, 1))
+        else:
+            v = 0
+        data = [v] * n
+    sep = rng.choice([',', ', ', ' , ', ' ,'])
+    if rng.random() < 0.3:
+        d = d.lower()
+    return '%s %s' % (d + ' ' * rng.randrange(2), sep.join(items)), data
+
 def mangle(rng, text):
     """Odd whitespace / case (outside strings)."""
     if '"' in text:
@@ -277,10 +363,21 @@ def run_b(shard, spec):
     dis = {(h, l): Disassembler(snap, _Cfg(h, l, 'ALL', 1)) for h in (0, 1) for l in (0, 1)}
     for case in range(spec['shard'], n, spec['of']):
         rng = shard.rng('b', case)
-        kind = rng.choice(['byte', 'word', 'index', 'indexn', 'jr', 'rst', 'bit', 'im'])
+        kind = rng.choice(['byte', 'word', 'index', 'indexn', 'jr', 'rst', 'bit', 'im', 'def', 'bytex', 'wordx'])
+        defdata = None
         addr = rng.choice(ADDRS) if rng.random() < 0.5 else rng.randrange(65536)
         exp = None
-        if kind == 'byte':
+        if kind == 'def':
+            text, defdata = def_statement(rng)
+        elif kind == 'bytex':
+            v = rng.choice([0, 1, 127, 128, 255, rng.randrange(256)])
+            text = rng.choice(TEMPLATES_BYTE).format(n=spellx(rng, v))
+            exp = [v]
+        elif kind == 'wordx':
+            v = rng.choice([0, 1, 255, 256, 0x7FFF, 0x8000, 0xFFFF, rng.randrange(65536)])
+            text = rng.choice(TEMPLATES_WORD).format(nn=spellx(rng, v))
+            exp = [v & 255, v >> 8]
+        elif kind == 'byte':
             v = rng.choice([0, 1, 127, 128, 255, rng.randrange(256)])
             t = rng.choice(TEMPLATES_BYTE)
             sp = spell(rng, v, 1)
@@ -330,7 +427,8 @@ def run_b(shard, spec):
         else:
             text = 'IM ' + rng.choice(['0', '1', '2', '$1', '%10'])
             exp = []
-        text = mangle(rng, text)
+        if kind != 'def':
+            text = mangle(rng, text)
         try:
             b1 = asm.assemble(text, addr)
         except Exception as e:
@@ -354,6 +452,29 @@ def run_b(shard, spec):
             tail = [b1[2], b1[3]]
         if exp and tail != exp:
             shard.violation('%r at %d assembles to %s: operand bytes %r, intended %r' % (text, addr, bytes(b1).hex(), tail, exp), {'part': 'b', 'case': case})
+            continue
+        if kind == 'def':
+            shard.hist('b_kind', kind)
+            if list(b1) != defdata:
+                shard.violation('%r assembles to %s, the statement denotes %s' % (text, bytes(b1).hex(), bytes(defdata).hex()), {'part': 'b', 'case': case})
+                continue
+            # disassemble those bytes as data in a random base and assemble the statements again
+            a0 = min(addr, 65536 - len(b1))
+            snap[a0:a0 + len(b1)] = list(b1)
+            d = dis[(rng.randrange(2), rng.randrange(2))]
+            word = text.upper().startswith('DEFW')
+            meth = rng.choice([d.defb_range, d.defm_range] + [d.defw_range] * (4 * word) + [d.defs_range] * (4 * text.upper().startswith('DEFS')))
+            base = rng.choice('nbdh' if meth == d.defs_range else 'nbcdh')
+            again = []
+            try:
+                for ins in meth(a0, a0 + len(b1), ((0, base),)):
+                    again.extend(asm.assemble(ins.operation, ins.address) or ())
+            except Exception as e:
+                shard.violation('%r -> %s -> data statements in base %s raised %r' % (text, bytes(b1).hex(), base, e), {'part': 'b', 'case': case})
+                continue
+            shard.case(('b', text, addr), True, sample={'text': text, 'bytes': bytes(b1).hex()[:64]} if case < 40 else None)
+            if again != list(b1):
+                shard.violation('%r -> %s -> %s statements (base %s) -> %s' % (text, bytes(b1).hex(), meth.__name__, base, bytes(again).hex()), {'part': 'b', 'case': case})
             continue
         # disassemble those bytes and assemble the result again
         for i, x in enumerate(b1):
